@@ -154,11 +154,14 @@ CLAIMED = {
         "(interrupt, the execute calls that report ?BREAK and show the prompt, enter(CONT), execute(k+1)) equals execute(k) of a machine that agrees with "
         "the interrupted one in address, stack, variables, functions, random state, program code, symbols and data and differs only in cursor column, "
         "emptied continuation slot, trace marker and direct-code area -- for every machine with a linked program, and likewise for every machine at the "
-        "prompt whose slot holds a running program (STOP, END, errors) (Props/C13.v, Proofs/Slicing.v, ContTrip.v).",
+        "prompt whose slot holds a running program (STOP, END, errors); no instruction reads those fields while the slot is empty and tracing is off, "
+        "so with the cursor in column 0 at the interrupt the execute calls after CONT return exactly the events of the uninterrupted machine, for one "
+        "call and for any sequence of calls during which the reference run stays inside the program and keeps running "
+        "(Props/C13.v, Proofs/Slicing.v, ContTrip.v, DeadFields.v, ContRun.v).",
         "the same sessions under seven quanta, interrupted after every k-th execute(1) call with optional inspection and CONT, with STOP inserted at "
         "statement boundaries, and programs waiting for keys (INKEY$) interrupted while each wait is pending; outputs must equal the uninterrupted run modulo the ?BREAK block and its forced line break.",
-        "PARTIAL: that the rest of the run does not read the four fields in which the resumed machine differs (the column is visible to TAB, POS and print "
-        "zones by design), and the END / STOP statements end to end, are decided by the monitor, not proved.",
+        "PARTIAL: the cursor beyond column 0 at the interrupt (one line break is forced by design, after which TAB, POS and print zones differ), runs "
+        "that trace, calls that cross an INPUT / INKEY$ wait, and the END / STOP statements end to end are decided by the monitor, not proved.",
         "Coq slicing theorem + schedule-enumerating differential and relational check"),
     "C14": entry(
         "the change map is built completely before any line is touched (a failing RENUM leaves the listing as it was); lines below old-start are not in "
